@@ -201,6 +201,20 @@ func runC15(args []string) {
 				return
 			}
 		}
+		if idx%6 == 2 {
+			// history: this process has just hard-failed on a run of other documents (a number, a list, a non-string
+			// `type` where a step belongs, inside groups too). A step's kind depends on its own keys, not on the past
+			ev["poison"] = true
+			for rep := 0; rep < 7; rep++ {
+				for _, bad := range []string{`{"steps": [42]}`, `{"steps": [{"type": 7}]}`, `{"steps": [["wait"]]}`,
+					`{"steps": [{"group": "g", "steps": [{"group": "h", "steps": [42]}]}]}`} {
+					func() {
+						defer func() { recover() }()
+						pipeline.Parse(strings.NewReader(bad))
+					}()
+				}
+			}
+		}
 		p, msg := guarded(func() {
 			pl, err := pipeline.Parse(strings.NewReader(src))
 			ev["warn"] = warning.Is(err)
